@@ -629,9 +629,11 @@ type Frame struct {
 	Index      int64  `json:"index"`
 	Offset     int64  `json:"offset"`
 	Length     int64  `json:"length"`
-	PayloadLen int    `json:"payload_len"` // bytes actually written after a PIECE_PAYLOAD frame
-	BitHeader  uint64 `json:"bit_header"`  // declared bit length of the handshake bitfield
-	BitWords   int    `json:"bit_words"`   // 64-bit words that actually follow the header
+	PayloadLen int    `json:"payload_len"`        // bytes actually written after a PIECE_PAYLOAD frame
+	BitHeader  uint64 `json:"bit_header"`         // declared bit length of the handshake bitfield
+	BitWords   int    `json:"bit_words"`          // 64-bit words that actually follow the header
+	BitFill    int    `json:"bit_fill,omitempty"` // content of those words, see fill* constants
+	BitSeed    uint64 `json:"bit_seed,omitempty"`
 	BadPeerID  bool   `json:"bad_peer_id"`
 	RemoteHdr  uint64 `json:"remote_hdr"` // declared bit length of one remote bitfield (0 = no remote bitfield)
 }
@@ -675,7 +677,9 @@ func genW(t *rapid.T) WCase {
 		f.Length = rapid.SampledFrom([]int64{int64(c.PieceLen), int64(c.PieceLen), 0, int64(c.PieceLen) + 1, -1, math.MinInt32, math.MaxInt32, 1 << 20, 1 << 28}).Draw(t, "length")
 		f.PayloadLen = rapid.SampledFrom([]int{c.PieceLen, c.PieceLen, 0, c.PieceLen + 1, 3}).Draw(t, "paylen")
 		f.BitHeader = rapid.SampledFrom([]uint64{uint64(n), uint64(n), 0, uint64(n) + 1, 64, 65, 1 << 16, 1 << 32, 1 << 31, math.MaxUint32}).Draw(t, "bithdr")
-		f.BitWords = rapid.SampledFrom([]int{int((f.BitHeader%4096 + 63) / 64), 0, 1, 2}).Draw(t, "bitwords")
+		f.BitWords = rapid.SampledFrom([]int{int((f.BitHeader%4096 + 63) / 64), int((f.BitHeader%4096 + 63) / 64), 0, 1, 2}).Draw(t, "bitwords")
+		f.BitFill = rapid.IntRange(0, numFills-1).Draw(t, "bitfill")
+		f.BitSeed = rapid.Uint64().Draw(t, "bitseed")
 		f.BadPeerID = rapid.IntRange(0, 7).Draw(t, "badpeer") == 0
 		f.RemoteHdr = rapid.SampledFrom([]uint64{0, 0, uint64(n), 1 << 32, 1 << 16}).Draw(t, "remotehdr")
 		c.Frames = append(c.Frames, f)
@@ -683,11 +687,56 @@ func genW(t *rapid.T) WCase {
 	return c
 }
 
-func bitfieldBytes(header uint64, words int) []byte {
+// Fill patterns of the words of a handshake bitfield.
+const (
+	fillOnes         = 0 // every bit of every word set (valid bits and padding)
+	fillZeros        = 1
+	fillFirstPadding = 2 // only the first bit beyond the declared length
+	fillLastBit      = 3 // only the highest bit of the last word
+	fillRandom       = 4 // words drawn from BitSeed
+	fillValidPlusOne = 5 // every declared bit set, plus one padding bit chosen by BitSeed
+	numFills         = 6
+)
+
+func bitfieldBytes(header uint64, words int, fill int, seed uint64) []byte {
 	b := make([]byte, 8+8*words)
 	binary.BigEndian.PutUint64(b, header)
-	for i := 0; i < words; i++ {
-		binary.BigEndian.PutUint64(b[8+8*i:], 0xFFFFFFFFFFFFFFFF)
+	w := make([]uint64, words)
+	set := func(bit uint64) {
+		if int(bit/64) < words {
+			w[bit/64] |= 1 << (bit % 64)
+		}
+	}
+	switch fill {
+	case fillZeros:
+	case fillFirstPadding:
+		set(header)
+	case fillLastBit:
+		if words > 0 {
+			w[words-1] = 1 << 63
+		}
+	case fillRandom:
+		x := seed | 1
+		for i := range w {
+			x ^= x << 13
+			x ^= x >> 7
+			x ^= x << 17
+			w[i] = x
+		}
+	case fillValidPlusOne:
+		for bit := uint64(0); bit < header && int(bit/64) < words; bit++ {
+			set(bit)
+		}
+		if pad := uint64(64*words) - header; uint64(64*words) > header && pad > 0 {
+			set(header + seed%pad)
+		}
+	default:
+		for i := range w {
+			w[i] = 0xFFFFFFFFFFFFFFFF
+		}
+	}
+	for i := range w {
+		binary.BigEndian.PutUint64(b[8+8*i:], w[i])
 	}
 	return b
 }
@@ -718,9 +767,9 @@ func encodeFrame(v *victim, f Frame) (head []byte, payload []byte) {
 				pid = "nothex"
 			}
 			bm := &p2p.BitfieldMessage{PeerID: pid, Name: v.mi.Digest().Hex(), InfoHash: v.mi.InfoHash().String(),
-				BitfieldBytes: bitfieldBytes(f.BitHeader, f.BitWords), Namespace: "ns"}
+				BitfieldBytes: bitfieldBytes(f.BitHeader, f.BitWords, f.BitFill, f.BitSeed), Namespace: "ns"}
 			if f.RemoteHdr != 0 {
-				bm.RemoteBitfieldBytes = map[string][]byte{peerID(8).String(): bitfieldBytes(f.RemoteHdr, 1)}
+				bm.RemoteBitfieldBytes = map[string][]byte{peerID(8).String(): bitfieldBytes(f.RemoteHdr, 1, f.BitFill, f.BitSeed)}
 			}
 			pm.Bitfield = bm
 		}
@@ -911,7 +960,7 @@ func runWOn(v *victim, c WCase) pbt.Verdict {
 
 func TestProp(t *testing.T) {
 	pbt.Main(t, pbt.Spec{
-		ID: "C14",
+		ID:   "C14",
 		Rule: "three generated input layers against real agent (some pieces complete) and origin torrents. dispatch: 1-8 structured p2p messages of every type (plus an unknown type), bodies present or absent, index/offset/length from {valid, -1, MinInt32, MaxInt32, N, N+1, 0, ...}, delivered synchronously to a real Dispatcher (verif hook) as a hostile peer next to an honest peer; after each message: no panic, bytes allocated <= 256 KiB + 4*(piece+blob), every payload served is a piece the victim has with exact bytes and an index in [0,N), the victim's bitfield equals a model (only a correct full payload completes a piece), the honest peer's request is still served; at the end stored bytes equal the blob. bitfield: handshake bitfields of 0..4096 bits for an N-piece torrent handed to the Dispatcher: no panic, bounded allocation, requests only for pieces in [0,N), honest peer still served. wire: frames after a correct length prefix (structured protobuf with hostile field values and bitset length headers up to 2^32, or raw bytes) into Handshaker.Accept and into an established Conn's read path over net.Pipe: no panic, allocation <= 256 KiB + 4*(input+piece), delivered payloads match their declared length and never exceed the torrent's piece length. non-trivial = at least one field outside its valid domain reaches a handler; distinct by case hash",
 		Assumptions: []string{
 			"PIECE_PAYLOAD messages at the dispatcher layer carry what a Conn can deliver (body present, buffer length = declared length <= piece length); other shapes are covered by the wire layer",
